@@ -32,6 +32,7 @@ SimNext ==
   \/ \E src \in R({"store", "batch", "snap"}), p \in R(Prefixes), ub \in R(BOOLEAN) : NewIter(src, p, ub)
   \/ \E p \in R(Prefixes \ {<<>>}) : NewIter("store", p, TRUE)
   \/ IterFirst \/ IterNext \/ IterPrev \/ IterNext \/ IterClose
+  \/ Flush \/ Reopen
 
 Step == SimNext /\ hist' = Append(hist, [a |-> act', res |-> res', store |-> store'])
 
